@@ -553,7 +553,7 @@ var EvoEdits = []EvoEdit{
 			nw = "date"
 		}
 		s.Set(Prim(nw))
-		if !env.TypeOK(s.Def.Fields[maxInt(s.Field, 0)].Type) && s.Field >= 0 {
+		if s.Field >= 0 && s.Field < len(s.Def.Fields) && !env.TypeOK(s.Def.Fields[s.Field].Type) {
 			s.Set(Prim(old))
 			return "", false
 		}
